@@ -22,7 +22,8 @@ MANIFEST = {
 }
 MODULE = "LalrpopModel.Props.C10"
 NS = "LalrpopModel.ReLit."
-THEOREMS = [NS + t for t in ["utf8_roundtrip", "escape_parse", "literal_roundtrip", "hex_roundtrip", "debug_quote_roundtrip"]]
+THEOREMS = [NS + t for t in ["utf8_roundtrip", "escape_parse", "literal_roundtrip", "hex_roundtrip", "debug_quote_roundtrip",
+                                "escape_injective", "debug_quote_injective", "literal_languages_disjoint"]]
 
 FINDING_WHAT = {
     "literal-does-not-parse": "parse_literal fails on a quoted terminal",
